@@ -1007,6 +1007,10 @@ def main(tier, replay=None):
     # 1. proofs
     res = vf.coq_check_props(AREA, timeout=900)
     chk.proof_result(res, AREA)
+    # never a silent "0 discharged": whatever the reason (build did not run, Properties.v without theorems, generated
+    # files missing), theorems that are not discharged are a broken obligation
+    if (chk.cov["discharged"] != chk.cov["obligations"] or chk.cov["obligations"] < 1) and not chk.broken:
+        chk.broke("coq/C12: %d of %d theorems discharged" % (chk.cov["discharged"], chk.cov["obligations"]), res.get("log", ""))
     # 2. executables
     drv, l1 = vf.ocaml_build(AREA) if os.path.exists(os.path.join(vf.coq_dir(AREA), "ocaml", "model.ml")) else (None, "extraction did not run")
     if drv is None:
